@@ -532,6 +532,8 @@ def finish_expand(spec, w, infos, taplog, stats):
     repl = {tuple(x[:2]): x[2] for x in kc.get("replace", [])}
     outlines = []
     for (t, cid, ln) in lines:
+        if kc.get("only_conn") is not None and cid != kc["only_conn"]:
+            continue
         lab = ln.split(" ")[0]
         if (cid, lab) in drop_lines:
             continue
